@@ -26,6 +26,7 @@ import (
 	"os"
 	"path/filepath"
 	"runtime"
+	"runtime/pprof"
 	"strings"
 	"sync"
 
@@ -54,13 +55,19 @@ func body() {
 	}
 	r.Floor = 60
 	installHooks()
+	if pf := os.Getenv("C04_CPUPROFILE"); pf != "" {
+		f, _ := os.Create(pf)
+		pprof.StartCPUProfile(f)
+		defer pprof.StopCPUProfile()
+	}
 	root := ev.TempDir("c04")
 	defer os.RemoveAll(root)
 
 	nSeq := envInt("C04_NSEQ", r.Pick(400, 8000))
 	nProc := envInt("C04_NPROC", r.Pick(80, 1600))
-	nBig := envInt("C04_NBIG", r.Pick(8, 100))
-	nAge := envInt("C04_NAGE", r.Pick(2, 12))
+	nBig := envInt("C04_NBIG", r.Pick(4, 42)) // batches > 10 MiB: fresh memory is slow under the race detector
+	nAge := envInt("C04_NAGE", r.Pick(12, 120))
+	nAgeBig := envInt("C04_NAGEBIG", r.Pick(0, 4))
 	nConc := envInt("C04_NCONC", r.Pick(48, 800))
 	nConcProc := envInt("C04_NCONCPROC", r.Pick(12, 200))
 	nCrash := envInt("C04_NCRASH", r.Pick(40, 700))
@@ -91,8 +98,10 @@ func body() {
 	// long cases first
 	add("svc-purge", nSvc, func(i int, id string, s int64) { runSvcPurge(id, s, root) })
 	add("svc-remove", nSvc, func(i int, id string, s int64) { runSvcRemove(id, s, root) })
-	add("age", nAge, func(i int, id string, s int64) { runProcAge(id, s, root) })
-	add("split", nBig, func(i int, id string, s int64) { runProcBig(id, s, root) })
+	add("svc-churn", nSvc*2, func(i int, id string, s int64) { runSvcChurn(id, s, root) })
+	add("age-multi-segment", nAgeBig, func(i int, id string, s int64) { runProcAge(id, s, true, root) })
+	add("split", nBig, func(i int, id string, s int64) { runProcBig(id, s, i%7, root) })
+	add("age", nAge, func(i int, id string, s int64) { runProcAge(id, s, false, root) })
 	degrees := []int{1, 4, 12, 32}
 	add("conc", nConc, func(i int, id string, s int64) { runConcQueue(id, s, degrees[i%4], root) })
 	add("concproc", nConcProc, func(i int, id string, s int64) { runConcProc(id, s, degrees[1+i%3], root) })
@@ -123,6 +132,7 @@ func body() {
 	close(ch)
 	wg.Wait()
 	os.RemoveAll(root)
+	pprof.StopCPUProfile()
 	raceReports()
 	r.Finish()
 }
